@@ -66,7 +66,8 @@ def c01(tier, seed):
              "read back with one recipient key (varying read-buffer sizes) and compared with the reference map; "
              "distinct = distinct (program, reading key); non-trivial = at least 2 files, or 2 pieces, or one chunk of data",
         musthit=["musthit:encrypt_plaintext_multiple_of_chunk", "align:piece_end@chunk0", "align:stream_end@chunk0",
-                 "align:piece_end@block0"],
+                 "align:piece_end@block0", "musthit:compressed_block_end_next_to_chunk_edge",
+                 "musthit:compressed_block_ends_with_standalone_final_byte"],
     )
 
 
